@@ -895,7 +895,9 @@ class InlinedExpressionGenMapper(
         assert is_symbolic_index(rec_index)
         res = local_ctx.lookup(expr.aggregate.name).to_loopy_expression(
             rec_index, prstnt_ctx)
-        assert prim.is_arithmetic_expression(res)
+        # (an inlined boolean constant, e.g. from zeros(..., dtype=bool), is fine)
+        assert (prim.is_arithmetic_expression(res)
+                or isinstance(res, bool | np.bool_))
         return res
 
     def map_variable(self, expr: prim.Variable,
@@ -914,7 +916,8 @@ class InlinedExpressionGenMapper(
             return expr
         else:
             res = local_ctx.lookup(expr.name).to_loopy_expression((), prstnt_ctx)
-            assert prim.is_arithmetic_expression(res)
+            assert (prim.is_arithmetic_expression(res)
+                    or isinstance(res, bool | np.bool_))
             return res
 
     def map_call(self, expr: prim.Call,
